@@ -23,7 +23,38 @@ from vlib.worker import WorkerDied  # noqa: E402
 RW = K.CKF_SERIAL_SESSION | K.CKF_RW_SESSION
 CALLS = ["create_small", "create_large", "create_rsa", "create_private", "set_large", "set_small", "set_private", "copy", "destroy",
          "login_user", "login_wrong", "login_so", "setpin_user", "setpin_so", "initpin", "inittoken_new", "inittoken_reinit", "genkey",
-         "genpair_ec"]
+         "genpair_ec"] + ["gen_des3", "gen_generic", "genpair_rsa", "genpair_ed", "genpair_dsa", "genpair_dh", "unwrap_secret", "unwrap_rsa",
+                          "derive_sym", "derive_dh", "derive_concat"]
+# calls that store a new key through the key-generation / unwrap / derive paths of the library (each has its own commit tail)
+KEYPATH_CALLS = ["genkey", "genpair_ec", "gen_des3", "gen_generic", "genpair_rsa", "genpair_ed", "genpair_dsa", "genpair_dh", "unwrap_secret", "unwrap_rsa",
+                 "derive_sym", "derive_dh", "derive_concat"]
+
+
+def prepare_extra(w, s, objs, sd):
+    """session-side helper objects of the key-path calls (public session objects: no file-system traffic, they survive C_Logout):
+    a wrapping / base key, two wrapped blobs made by the token itself, a DH base key"""
+    def mk(name, tpl_):
+        r = w.C_CreateObject(s=s, tpl=tpl_ + T(("CKA_TOKEN", False), ("CKA_PRIVATE", False)))
+        if r["rv"] != 0:
+            raise RuntimeError("scenario setup (%s): %s" % (name, K.rvname(r["rv"])))
+        objs[name] = r["h"]
+        return r["h"]
+    wk = mk("_wk", T(("CKA_CLASS", "CKO_SECRET_KEY"), ("CKA_KEY_TYPE", "CKK_AES"), ("CKA_VALUE", bytes((sd * 5 + i * 3 + 1) & 0xFF for i in range(32))),
+                     ("CKA_WRAP", True), ("CKA_UNWRAP", True), ("CKA_DERIVE", True), ("CKA_ENCRYPT", True)))
+    sec = mk("_sec", T(("CKA_CLASS", "CKO_SECRET_KEY"), ("CKA_KEY_TYPE", "CKK_GENERIC_SECRET"), ("CKA_VALUE", bytes((sd * 7 + i * 5 + 2) & 0xFF for i in range(32))),
+                       ("CKA_EXTRACTABLE", True), ("CKA_SENSITIVE", False)))
+    rsa = mk("_rsa", T(*base_template("rsa_priv", sd)) + T(("CKA_EXTRACTABLE", True), ("CKA_SENSITIVE", False)))
+    r = w.C_WrapKey(s=s, mech={"m": K.CKM_AES_KEY_WRAP}, wkey=wk, key=sec, out=256)
+    if r["rv"] != 0:
+        raise RuntimeError("scenario setup (wrap secret): %s" % K.rvname(r["rv"]))
+    objs["_blob_secret"] = r["out"]["data"]
+    r = w.C_WrapKey(s=s, mech={"m": K.CKM_AES_KEY_WRAP_PAD}, wkey=wk, key=rsa, out=8192)
+    if r["rv"] != 0:
+        raise RuntimeError("scenario setup (wrap rsa): %s" % K.rvname(r["rv"]))
+    objs["_blob_rsa"] = r["out"]["data"]
+    mk("_dh", T(*base_template("dh_priv", sd)) + T(("CKA_DERIVE", True)))
+    mk("_gen", T(("CKA_CLASS", "CKO_SECRET_KEY"), ("CKA_KEY_TYPE", "CKK_GENERIC_SECRET"), ("CKA_VALUE", bytes((sd * 11 + i * 7 + 3) & 0xFF for i in range(20))),
+                 ("CKA_DERIVE", True)))
 ATTRS = [K.CKA_LABEL, K.CKA_VALUE, K.CKA_CLASS, K.CKA_ID, K.CKA_PRIVATE, K.CKA_APPLICATION, K.CKA_KEY_TYPE, K.CKA_MODULUS, K.CKA_TOKEN,
          K.CKA_SENSITIVE, K.CKA_EC_PARAMS]
 
@@ -43,10 +74,10 @@ class C16(Check):
     level = "fault_enumeration"
     variants = ["ossl-asan"]
     rule = ("A case = a generated scenario (two tokens; token objects incl. a private AES key, a 5-9 KB data object, a "
-            "certificate; generated value sizes 0..9000 bytes) + one writing call out of 19 kinds (C_CreateObject small / large "
+            "certificate; generated value sizes 0..9000 bytes) + one writing call out of 30 kinds (C_CreateObject small / large "
             "/ RSA / private, C_SetAttributeValue on large / small / private objects, C_CopyObject, C_DestroyObject, C_Login "
-            "user / wrong PIN / SO (flag rewrites), C_SetPIN user / SO, C_InitPIN, C_InitToken fresh / re-init, C_GenerateKey, "
-            "C_GenerateKeyPair). EVERY crash point of that call is enumerated: an image of the token directory is taken before "
+            "user / wrong PIN / SO (flag rewrites), C_SetPIN user / SO, C_InitPIN, C_InitToken fresh / re-init, C_GenerateKey AES / DES3 / generic, "
+            "C_GenerateKeyPair EC / RSA / EdDSA / DSA / DH, C_UnwrapKey of a secret / an RSA private key, C_DeriveKey by encryption / DH / concatenation). EVERY crash point of that call is enumerated: an image of the token directory is taken before "
             "each write-class file-system operation (open/create, truncate, fwrite, flush, close, unlink, mkdir, rmdir) and "
             "after each stdio spill. Each image is opened by a fresh process: C_Initialize returns (no crash / hang); every "
             "token not being written is listed with both PINs working; every object whose file is not in flight has exactly "
@@ -135,12 +166,14 @@ class C16(Check):
         mk("C-cert", T(*base_template("cert_x509", sd)) + T(("CKA_TOKEN", True), ("CKA_PRIVATE", False)))
         for i in range(prog["extra_objs"]):
             mk("X-extra-%d" % i, T(("CKA_CLASS", "CKO_DATA"), ("CKA_TOKEN", True), ("CKA_PRIVATE", bool(i % 2)), ("CKA_VALUE", b"extra-%d" % i * 3)))
+        call = prog["call"]
+        if call in KEYPATH_CALLS:
+            prepare_extra(w, s, objs, sd)
         w.C_Logout(s=s)
         # login state needed by the call
-        call = prog["call"]
         val = bytes((sd * 3 + i * 5) & 0xFF for i in range(prog["size"]))
         need_user = call in ("create_private", "set_private", "setpin_user", "genkey", "genpair_ec", "create_small", "create_large", "create_rsa", "set_large",
-                             "set_small", "copy", "destroy")
+                             "set_small", "copy", "destroy") or call in KEYPATH_CALLS
         if need_user:
             w.C_Login(s=s, user=K.CKU_USER, pin=hx(t0.user_pin))
         elif call in ("setpin_so", "initpin"):
@@ -245,6 +278,42 @@ class C16(Check):
             return w.C_GenerateKeyPair(s=s, mech={"m": K.CKM_EC_KEY_PAIR_GEN},
                                        pub=T(("CKA_EC_PARAMS", "06082a8648ce3d030107"), ("CKA_TOKEN", True), ("CKA_LABEL", b"N-new")),
                                        prv=T(("CKA_TOKEN", True), ("CKA_PRIVATE", True), ("CKA_LABEL", b"N-newprv")))["rv"]
+        newpriv = T(("CKA_TOKEN", True), ("CKA_PRIVATE", True), ("CKA_LABEL", b"N-newprv"), ("CKA_SENSITIVE", False), ("CKA_EXTRACTABLE", True))
+        newpub = T(("CKA_TOKEN", True), ("CKA_LABEL", b"N-new"))
+        if call == "gen_des3":
+            return w.C_GenerateKey(s=s, mech={"m": K.CKM_DES3_KEY_GEN}, tpl=T(("CKA_TOKEN", True), ("CKA_PRIVATE", True), ("CKA_LABEL", b"N-new")))["rv"]
+        if call == "gen_generic":
+            return w.C_GenerateKey(s=s, mech={"m": K.CKM_GENERIC_SECRET_KEY_GEN}, tpl=T(("CKA_VALUE_LEN", 24), ("CKA_TOKEN", True), ("CKA_PRIVATE", False), ("CKA_LABEL", b"N-new")))["rv"]
+        if call == "genpair_rsa":
+            return w.C_GenerateKeyPair(s=s, mech={"m": K.CKM_RSA_PKCS_KEY_PAIR_GEN}, pub=newpub + T(("CKA_MODULUS_BITS", 1024), ("CKA_PUBLIC_EXPONENT", bytes.fromhex("010001"))),
+                                       prv=newpriv)["rv"]
+        if call == "genpair_ed":
+            return w.C_GenerateKeyPair(s=s, mech={"m": K.CKM_EC_EDWARDS_KEY_PAIR_GEN}, pub=newpub + T(("CKA_EC_PARAMS", "06032b6570")), prv=newpriv)["rv"]
+        if call == "genpair_dsa":
+            d = dict(base_template("dsa_pub", sd))
+            return w.C_GenerateKeyPair(s=s, mech={"m": K.CKM_DSA_KEY_PAIR_GEN}, pub=newpub + T(("CKA_PRIME", d["CKA_PRIME"]), ("CKA_SUBPRIME", d["CKA_SUBPRIME"]), ("CKA_BASE", d["CKA_BASE"])),
+                                       prv=newpriv)["rv"]
+        if call == "genpair_dh":
+            d = dict(base_template("dh_pub", sd))
+            return w.C_GenerateKeyPair(s=s, mech={"m": K.CKM_DH_PKCS_KEY_PAIR_GEN}, pub=newpub + T(("CKA_PRIME", d["CKA_PRIME"]), ("CKA_BASE", d["CKA_BASE"])), prv=newpriv)["rv"]
+        newsec = T(("CKA_CLASS", "CKO_SECRET_KEY"), ("CKA_TOKEN", True), ("CKA_PRIVATE", True), ("CKA_LABEL", b"N-new"), ("CKA_SENSITIVE", False), ("CKA_EXTRACTABLE", True))
+        if call == "unwrap_secret":
+            return w.C_UnwrapKey(s=s, mech={"m": K.CKM_AES_KEY_WRAP}, key=objs["_wk"], data=objs["_blob_secret"], tpl=newsec + T(("CKA_KEY_TYPE", "CKK_GENERIC_SECRET")))["rv"]
+        if call == "unwrap_rsa":
+            return w.C_UnwrapKey(s=s, mech={"m": K.CKM_AES_KEY_WRAP_PAD}, key=objs["_wk"], data=objs["_blob_rsa"],
+                                 tpl=T(("CKA_CLASS", "CKO_PRIVATE_KEY"), ("CKA_KEY_TYPE", "CKK_RSA"), ("CKA_TOKEN", True), ("CKA_PRIVATE", bool(sd & 1)), ("CKA_LABEL", b"N-new"),
+                                       ("CKA_SENSITIVE", False), ("CKA_EXTRACTABLE", True)))["rv"]
+        if call == "derive_sym":
+            return w.C_DeriveKey(s=s, mech={"m": K.CKM_AES_ECB_ENCRYPT_DATA, "p": {"strdata": (bytes([sd]) * 32).hex()}}, key=objs["_wk"],
+                                 tpl=newsec + T(("CKA_KEY_TYPE", "CKK_AES"), ("CKA_VALUE_LEN", 32)))["rv"]
+        if call == "derive_dh":
+            peer = dict(base_template("dh_pub", sd))["CKA_VALUE"]
+            peer = peer.hex() if isinstance(peer, (bytes, bytearray)) else peer
+            return w.C_DeriveKey(s=s, mech={"m": K.CKM_DH_PKCS_DERIVE, "p": {"raw": peer}}, key=objs["_dh"],
+                                 tpl=newsec + T(("CKA_KEY_TYPE", "CKK_GENERIC_SECRET"), ("CKA_VALUE_LEN", 32)))["rv"]
+        if call == "derive_concat":
+            return w.C_DeriveKey(s=s, mech={"m": K.CKM_CONCATENATE_BASE_AND_DATA, "p": {"strdata": (bytes([sd ^ 0x5a]) * 12).hex()}}, key=objs["_gen"],
+                                 tpl=newsec + T(("CKA_KEY_TYPE", "CKK_GENERIC_SECRET")))["rv"]
         raise KeyError(call)
 
     # ----------------------------------------------------------------------------------------------
@@ -317,6 +386,8 @@ class C16(Check):
                 targets = {"create_small": ["N-new"], "create_large": ["N-new"], "create_rsa": ["N-new"], "create_private": ["N-new"], "copy": ["N-new"],
                            "genkey": ["N-new"], "genpair_ec": ["N-new", "N-newprv"], "set_large": ["B-big-data"], "set_small": ["C-cert"], "destroy": ["C-cert"],
                            "set_private": ["A-private-aes"]}.get(prog["call"])
+                if prog["call"] in KEYPATH_CALLS:
+                    targets = ["N-new", "N-newprv"]
                 if prog["call"] == "inittoken_reinit":
                     targets = list(oo)
                 targets = targets or []
